@@ -6,7 +6,7 @@
 From Coq Require Import ZArith List Znumtheory.
 From PySnark.Base Require Import FieldZ.
 From PySnark.Model Require Import Lc Sym Gadgets Api Prog.
-From PySnark.Proofs Require Import Meta FieldOk.
+From PySnark.Proofs Require Import Meta FieldOk Frame ProgFrame.
 Import ListNotations.
 Open Scope Z_scope.
 
@@ -20,18 +20,16 @@ Theorem C04_coherent_when_observed : forall (p : Z) (c : cfg) (pr : list stmt) (
             exists s, ext s (st t) /\ feq p (snd (fst o)) (eval (wval s) (snd o))) (outs t).
 Proof. intros p c pr ins ig Hp. exact (outs_coherent (field_ok_prime p Hp) (gen_prog c pr) ins ig). Qed.
 
-(* ... and on the *final* recorded witness, for programs whose generated command list is well-scoped (every
-   wire mentions allocated variables only).  [scoped_cmds] is computable; the harness evaluates it on every
-   generated program (it has never been false); a proof for all programs is not done: C04_final is _partial
-   in exactly that hypothesis. *)
-Theorem C04_coherent_on_final_witness_partial : forall (p : Z) (c : cfg) (pr : list stmt) (ins : list Z) (ig : bool),
-  prime p -> scoped_cmds 0 0 (gen_prog (p:=p) c pr) = true ->
+(* ... and on the FINAL recorded witness: every generated command list is well-scoped (Proofs/Frame.v: one induction
+   over the free generator monad), so what was observed stays true of the complete witness *)
+Theorem C04_coherent_on_final_witness : forall (p : Z) (c : cfg) (pr : list stmt) (ins : list Z) (ig : bool),
+  prime p ->
   let t := model_run (p:=p) c pr ins ig in
   Forall (fun o : Z * Z * lc => is_lc_tag (fst (fst o)) = true ->
             feq p (snd (fst o)) (eval (wval (st t)) (snd o))) (outs t).
 Proof.
-  intros p c pr ins ig Hp Sc t.
-  pose proof (outs_coherent_final (field_ok_prime p Hp) (gen_prog c pr) ins ig Sc) as H.
+  intros p c pr ins ig Hp t.
+  pose proof (outs_coherent_final (field_ok_prime p Hp) (gen_prog c pr) ins ig (gen_prog_scoped c pr)) as H.
   eapply Forall_impl; [|exact H]. intros o Ho T. exact (proj2 (Ho T)).
 Qed.
 
@@ -46,4 +44,4 @@ Example C04_example :
 Proof. vm_compute. repeat split; reflexivity. Qed.
 
 Print Assumptions C04_coherent_when_observed.
-Print Assumptions C04_coherent_on_final_witness_partial.
+Print Assumptions C04_coherent_on_final_witness.
